@@ -653,12 +653,8 @@ func checkC07(r *Result) {
 			tmw := NewTermer()
 			n, same := 0, true
 			var got []string
-			for _, b := range fn.Blocks {
-				iff, ok := b.Instrs[len(b.Instrs)-1].(*ssa.If)
-				if !ok {
-					continue
-				}
-				rel, _ := Cond(tmw.Of(iff.Cond))
+			for _, cv := range condValues(fn) {
+				rel, _ := Cond(tmw.Of(cv))
 				w, ok := asWindowRel(rel)
 				if !ok || w.op != "<=" {
 					continue // the strict tests are the admission / keep-current tests compared above
